@@ -1582,3 +1582,104 @@ def str_literals(body):
             for a in t["args"]:
                 visit(op_const(a))
     return out
+
+
+def failure_continuations(body, call_bb):
+    """Blocks entered exactly when the Result returned by the call at `call_bb` is a failure, for the idioms that consume
+    it: `if r.is_err()` / `if r.is_ok()` (true / false arm), `r?` and `r.map_err(..)?` / `.ok_or..` chains (the residual arm
+    of the Try::branch switch), and a `match r` on the result's own discriminant (the Err arm)."""
+    ba = BA.of(body)
+    t0 = body.blocks[call_bb]["term"]
+    dest = t0.get("dest", {}).get("l") if t0.get("dest") else None
+    if dest is None:
+        return []
+    conv = re.compile(r"core::result::Result::(map_err|map|or_else|and_then)|core::option::Option::(ok_or|ok_or_else)")
+    # locals holding the result (or a success-preserving conversion of it)
+    holds = {dest}
+    changed = True
+    while changed:
+        changed = False
+        for i in ba.live:
+            blk = body.blocks[i]
+            for st in blk["stmts"]:
+                if st["s"] == "assign" and not st["place"]["p"] and st["rv"]["k"] == "use":
+                    q = op_place(st["rv"]["op"])
+                    if q is not None and not q["p"] and q["l"] in holds and st["place"]["l"] not in holds:
+                        holds.add(st["place"]["l"])
+                        changed = True
+            t = blk["term"]
+            if t["t"] == "call" and t.get("dest") and not t["dest"]["p"] and any(conv.fullmatch(p) for p in callee_paths(t)):
+                a0 = op_local(t["args"][0]) if t.get("args") else None
+                if a0 in holds and t["dest"]["l"] not in holds:
+                    holds.add(t["dest"]["l"])
+                    changed = True
+    out = []
+    for (sw, t_t, f_t, cbb) in ba.switches_on_call(r"core::result::Result::is_err"):
+        a = body.blocks[cbb]["term"]["args"][0]
+        if op_local(a) in holds or any(x in holds for x in ba.ref_chain(op_local(a)) if op_local(a) is not None):
+            out.append(t_t)
+    for (sw, t_t, f_t, cbb) in ba.switches_on_call(r"core::result::Result::is_ok"):
+        a = body.blocks[cbb]["term"]["args"][0]
+        if op_local(a) in holds or any(x in holds for x in ba.ref_chain(op_local(a)) if op_local(a) is not None):
+            out.append(f_t)
+    for (i, brk, cont, src) in ba.try_sites():
+        a0 = op_local(body.blocks[i]["term"]["args"][0])
+        if a0 in holds and brk is not None:
+            out.append(brk)
+    for i in ba.live:
+        es = ba.enum_switch(i)
+        if es is None:
+            continue
+        subj, arms, _ = es
+        if isinstance(subj, dict) and not subj["p"] and subj["l"] in holds and arms.get(1) is not None and not any(i == nxt for (tb, _, _, _) in ba.try_sites() for nxt in [body.blocks[tb]["term"].get("target")]):
+            out.append(arms[1])
+    return sorted(set(out))
+
+
+def decisive_switches_on_call(body, rx):
+    """switches_on_call(rx) with re-tests of one call's result folded: when the bool result of a single call is kept in a
+    local and branched on more than once (`let found = p.exists(); let mode = if found {..}; ..; if found {return ..}`),
+    the switch that dominates the others is the decision (feasible-path analysis follows the later ones from it)."""
+    ba = BA.of(body)
+    sws = ba.switches_on_call(rx)
+    by_call = {}
+    for e in sws:
+        by_call.setdefault(e[3], []).append(e)
+    out = []
+    for cbb, es in sorted(by_call.items()):
+        first = [e for e in es if all(e is o or ba.dominates(e[0], o[0]) for o in es)]
+        out.append(first[0] if first else es[0])
+        if not first:
+            out.extend(es[1:])
+    return out
+
+
+def calls_or_fnitem_calls(body, rx):
+    """Blocks of `body` that call a function matching rx: direct calls, and `Fn*::call*` calls whose callee value goes
+    back (by direct steps) to the fn item itself - a predicate handed to a generic helper (`list_files(File::is_target)`)
+    that was spliced into this body."""
+    from rules.C06 import backward_direct
+    ba = BA.of(body)
+    out = set(ba.calls(rx))
+    rxc = re.compile(rx) if isinstance(rx, str) else rx
+    for i in ba.calls(r"core::ops::function::Fn(Mut|Once)?::call(_mut|_once)?"):
+        t = body.blocks[i]["term"]
+        if not t.get("args"):
+            continue
+        c0 = op_const(t["args"][0])
+        names = []
+        if c0 and "fn" in c0:
+            names.append(strip_generics(c0["fn"]))
+        l = op_local(t["args"][0])
+        if l is not None:
+            sl, org, _ = backward_direct(body, l, depth=60)
+            for x in sl:
+                for d in ba.defs.get(x, []):
+                    if d[0] == "stmt":
+                        from core import rvalue_consts
+                        for c in rvalue_consts(d[3]):
+                            if "fn" in c:
+                                names.append(strip_generics(c["fn"]))
+        if any(rxc.fullmatch(n) for n in names):
+            out.add(i)
+    return sorted(out)
